@@ -52,12 +52,22 @@ func verifDo(req *http.Request) (*http.Response, error) {
 			v9Signal = true
 		}
 		elems := make([]interface{}, L)
+		healthy := L == n
 		for i := 0; i < L; i++ {
 			tag := "extra"
 			if i < n {
 				tag = ins[i].Query
 			}
-			switch verifChoice("elem"+verifItoa(i), 6) {
+			kind := verifChoice("elem"+verifItoa(i), 8)
+			healthy = healthy && kind == 0
+			switch kind {
+			case 6:
+				// an errors list whose entries are null
+				elems[i] = map[string]interface{}{"data": nil, "errors": []interface{}{nil}}
+				v9Signal = true
+			case 7:
+				elems[i] = map[string]interface{}{"data": map[string]interface{}{"tag": tag}, "errors": []interface{}{nil}}
+				v9Signal = true
 			case 0:
 				elems[i] = map[string]interface{}{"data": map[string]interface{}{"tag": tag}}
 			case 5:
@@ -79,6 +89,17 @@ func verifDo(req *http.Request) (*http.Response, error) {
 		}
 		b, _ := json.Marshal(elems)
 		body = string(b)
+		if healthy {
+			// a well-formed answer followed by something else is not JSON
+			switch verifChoice("tail", 3) {
+			case 1:
+				body += "<html>proxy error</html>"
+				v9Signal = true
+			case 2:
+				body += ` [{"errors":[{"message":"late"}]}]`
+				v9Signal = true
+			}
+		}
 	case 1:
 		body = "<html>502</html>"
 		v9Signal = true
